@@ -13,8 +13,10 @@ from __future__ import annotations
 import asyncio
 import collections
 import concurrent.futures
+import gc
 import os
 import shutil
+import sys
 import tempfile
 from asyncio import events
 from pathlib import Path
@@ -85,12 +87,33 @@ class World:
         self.markers = set()         # marker / token files currently present (maintained from the file operations)
 
 
+class DeadHub:
+    """Stands in for the hub while an execution is torn down: whatever the unwinding code tries, nothing happens."""
+    current = None
+    actors = ()
+
+    def block_on(self, pred):
+        raise greenlet.GreenletExit()
+
+    def yield_point(self):
+        return
+
+    def spawn(self, *a, **k):
+        class _A:
+            dead = True
+        return _A()
+
+
 HUB = None      # current hub
 W = None        # current world
 
 
 def current_proc():
     return HUB.current.proc if HUB is not None and HUB.current is not None else None
+
+
+def _dead():
+    return W is None or W.dead_mode
 
 
 POLICIES = ("FIFO", "LIFO", "JOBS")
@@ -226,7 +249,10 @@ class VLoop(asyncio.BaseEventLoop):
 
     def actor_body(self):
         while True:
-            HUB.block_on(lambda: len(self._ready) > 0)
+            HUB.block_on(lambda: len(self._ready) > 0 or getattr(self, "_vstopped", False))
+            if getattr(self, "_vstopped", False):
+                # loop.stop(): run_forever returns, whatever is still pending never runs
+                return
             h = self._ready.popleft()
             if not h._cancelled:
                 events._set_running_loop(self)
@@ -262,6 +288,8 @@ class VLock:
         self.owner = None
 
     def acquire(self, blocking=True, timeout=-1):
+        if _dead():
+            return True
         if self.owner is not None:
             if not blocking:
                 return False
@@ -333,6 +361,8 @@ class PosixLockTable:
 
 def ip_acquire(path, blocking=True):
     path = str(path)
+    if _dead() or current_proc() is None:
+        raise greenlet.GreenletExit()
     pid = current_proc().pid
     if not PosixLockTable.try_acquire(path, pid):
         if not blocking:
@@ -350,6 +380,8 @@ def ip_acquire(path, blocking=True):
 
 def ip_release(path):
     path = str(path)
+    if _dead():
+        return
     p = current_proc()
     if p is None or not p.alive:
         return
@@ -652,18 +684,42 @@ def run_world(mains, schedule=None, policy="FIFO", fine=False, kill=None, max_st
         if at_end is not None:
             at_end(result, hub, world)
     finally:
-        # dead world first: abandoned greenlets must not touch anything while they are unwound
+        # dead world first: abandoned greenlets / coroutines must not touch anything while they are unwound, and they
+        # must be unwound *now* (not at some later garbage collection in the middle of another execution)
         world.dead_mode = True
         for p in world.simprocs:
             p.alive = False
-        for a in hub.actors:
-            if not a.dead:
-                try:
-                    a.g.throw(greenlet.GreenletExit)
-                except BaseException:  # noqa
-                    pass
-        events._set_running_loop(None)
-        HUB, W = None, None
+        HUB = DeadHub()
+        old_hook = sys.unraisablehook
+        sys.unraisablehook = lambda *a: None
+        try:
+            for a in hub.actors:
+                if not a.dead:
+                    try:
+                        a.g.throw(greenlet.GreenletExit)
+                    except BaseException:  # noqa
+                        pass
+            events._set_running_loop(None)
+            hub.actors.clear()
+            hub.current = None
+            hub.on_step = None
+            hub.kill = None
+            world.jobs.clear()
+            world.xps.clear()
+            world.tokens.clear()
+            world.procs.clear()
+            for p in world.simprocs:
+                p.watches.clear()
+                p.queue.clear()
+                p.observer = None
+                p.globals = None
+            for (o, attr) in PROC_GLOBALS:
+                setattr(o, attr, {} if attr == "TOKENS" else None)
+            gc.collect()
+        finally:
+            sys.unraisablehook = old_hook
+            events._set_running_loop(None)
+            HUB, W = None, None
         if not keep_dir:
             (_orig.get("rmtree") or shutil.rmtree)(wd, ignore_errors=True)
     result["dir"] = str(wd)
